@@ -7,7 +7,7 @@
      ple_russian k A P0 Q0 = _mzd_ple_russian(A, P, Q, k), k >= 1; pluq_russian = _mzd_pluq_russian;
      extractable entry points: [ple_russian_run k A], [pluq_russian_run k A] (identity P0, Q0).
 
-   PROVEN (Alg/PLERussianProofs.v .. Proofs6.v), without any hypothesis:
+   PROVEN (Alg/PLERussianProofs.v .. Proofs11.v), without any hypothesis:
      C03r_submatrix   _mzd_ple_submatrix (lazy elimination, pivots[] / done[] / done_row, on the
                       window of 64*splitblock columns) simulates the naive algorithm _mzd_ple_naive:
                       same pivots (left-most column, first row), rows up to done_row bit-identical on
@@ -24,22 +24,24 @@
                       rows with unit pivots in the table's own columns IS the sequential elimination
                       by these rows with the multipliers left in place (what the naive routine does
                       to a row below the pivot rows); E has an entry for every pattern that occurs.
-   _partial: the theorems about the whole routine carry the hypothesis [update_ok k] (PLERussianProofs5.v):
-     for a block WITH at least one pivot, steps 2, 4-6 (_mzd_ple_a10; the 1..7 tables with their index
-     arrays M, E, B; _mzd_ple_a11_N; _mzd_process_rows_ple_N) turn the state left by
-     _mzd_ple_submatrix into the naive algorithm's state, row by row.  [C03r_update_narrow] proves it
-     when no table is consulted, [C03r_process_rows_value] is its core for the rows beyond done_row;
-     missing: the slicing of U into the tables (_kk_setup) for [tbls_ok], the index array M
-     (spread / gather) of _mzd_ple_a11_N and the two phases of _mzd_ple_a10 against
-     [C03r_naive_closed_form].  Full statements: drop "update_ok k ->" from [C03r_ple_russian_naive],
-     [C03r_ple_russian], [C03r_pluq_russian], [C03r_mzd_ple_closed], [C03r_mzd_pluq_closed].
+   WHOLE ROUTINE, unconditional for every k >= 1 (Alg/PLERussianProofs8..11.v, PLERussianClosed.v):
+     [C03r_update]: steps 2, 4-6 (_mzd_ple_a10: swap phase and elimination phase; the 1..7 tables cut out of U by
+     _kk_setup with their index arrays M (spread / gather), E, B; _mzd_ple_a11_N; _mzd_process_rows_ple_N) turn the
+     state left by _mzd_ple_submatrix into the naive algorithm's state, row by row, given the post-condition SubPost
+     and the fact [ones] (the pivot entries of the naive state are 1), which [C03r_submatrix_ones] supplies;
+     [C03r_block_all]: one pass of the while loop = the naive algorithm, for every k;
+     [C03r_ple_russian_naive] / [C03r_ple_russian] / [C03r_pluq_russian] / [C03r_base_ok] / [C03r_mzd_ple_closed] /
+     [C03r_mzd_pluq_closed]: no hypothesis beyond 1 <= k, wf A and the lengths of P0, Q0.
+     (The earlier conditional form [C03r_block : update_ok k -> block_ok k] is kept; the literal [update_ok k] - the
+     update statement WITHOUT the fact [ones] - is not proven and not needed.)
    The conclusions are checked by computation on [russian_examples] (15 inputs incl. windows narrower
    than the matrix and rows updated through E/B), against ple_naive and the verified checkers. *)
 From Coq Require Import List NArith Arith Lia Bool Sorted.
 From M4 Require Import Base.Bits Lin.Mat Lin.Ops Lin.Spec Alg.PLE Alg.PLELemmas Alg.PLESpec
   Alg.PLEProofs Alg.PLEProofs4 Alg.PLEProofs10
   Alg.PLERussian Alg.PLERussianProofs Alg.PLERussianProofs2 Alg.PLERussianProofs3 Alg.PLERussianProofs4
-  Alg.PLERussianProofs5 Alg.PLERussianProofs6 Alg.PLERussianProofs7.
+  Alg.PLERussianProofs5 Alg.PLERussianProofs6 Alg.PLERussianProofs7 Alg.PLERussianProofs8 Alg.PLERussianProofs11
+  Alg.PLERussianClosed.
 Import ListNotations.
 Local Open Scope nat_scope.
 
@@ -56,6 +58,32 @@ Print Assumptions C03r_submatrix.
 Theorem C03r_block : forall k, update_ok k -> block_ok k.
 Proof. exact block_ok_of_update. Qed.
 Print Assumptions C03r_block.
+
+Theorem C03r_submatrix_ones : forall (M : mat) (P0 Q0 : list nat) (r0 c0 kk w c' : nat),
+  wf M -> r0 < nr M -> c0 + kk <= w -> 1 <= kk -> w <= nc M ->
+  length P0 = nr M -> length Q0 = nc M -> c' <= c0 -> gap_zero M r0 c' c0 ->
+  forall W0 : mat, wf W0 -> nr W0 = nr M -> nc W0 = w -> (forall i, row W0 i = lo w (row M i)) ->
+  let '((W1, done_row), (P1, Q1), pivots) := ple_sub W0 r0 c0 kk P0 Q0 in
+  exists pv cur, SubPost M P0 Q0 r0 c0 kk w c' W1 done_row P1 Q1 pivots pv cur /\ ones M r0 c0 pivots pv.
+Proof. exact sub_spec_ones. Qed.
+Print Assumptions C03r_submatrix_ones.
+
+Theorem C03r_update : forall k M P0 Q0 r c kk c' W1 done_row P1 Q1 pivots pv cur,
+  wf M -> r < nr M -> 1 <= kk -> c + kk <= nc M ->
+  let w := win_cols (nc M) c kk in
+  SubPost M P0 Q0 r c kk w c' W1 done_row P1 Q1 pivots pv cur ->
+  ones M r c pivots pv ->
+  let M2 := ple_a10 (mpaste M 0 0 W1) P1 r c w pivots in
+  let Mf := russian_update k M2 r c kk w done_row pivots in
+  nr Mf = nr M /\ nc Mf = nc M /\ length (rows Mf) = nr M /\
+  forall i, i < nr M -> row Mf i = row (nsteps M r pv) i.
+Proof. exact russian_update_ok. Qed.
+Print Assumptions C03r_update.
+
+Theorem C03r_block_all : forall k, block_ok k.
+Proof. exact russian_block_ok. Qed.
+Print Assumptions C03r_block_all.
+
 
 Theorem C03r_loop : forall k, block_ok k -> forall fuel M P Q r c kk c',
   wf M -> r <= nr M -> c <= nc M -> 1 <= kk -> length P = nr M -> length Q = nc M ->
@@ -95,37 +123,37 @@ Proof. exact update_ok_narrow_partial. Qed.
 Print Assumptions C03r_update_narrow.
 
 (** the whole routine: bit-identical with the naive routine started from identity permutations *)
-Theorem C03r_ple_russian_naive : forall k A P0 Q0, 1 <= k -> update_ok k ->
+Theorem C03r_ple_russian_naive : forall k A P0 Q0, 1 <= k ->
   wf A -> length P0 = nr A -> length Q0 = nc A ->
   ple_russian k A P0 Q0 = ple_naive A (fill_id 0 P0) (fill_id 0 Q0).
-Proof. exact ple_russian_naive_partial. Qed.
+Proof. exact ple_russian_naive. Qed.
 Print Assumptions C03r_ple_russian_naive.
 
-Theorem C03r_ple_russian : forall k A P0 Q0, 1 <= k -> update_ok k ->
+Theorem C03r_ple_russian : forall k A P0 Q0, 1 <= k ->
   wf A -> length P0 = nr A -> length Q0 = nc A -> ple_spec A (ple_russian k A P0 Q0).
-Proof. exact ple_russian_spec_partial. Qed.
+Proof. exact ple_russian_spec. Qed.
 Print Assumptions C03r_ple_russian.
 
-Theorem C03r_pluq_russian : forall k A P0 Q0, 1 <= k -> update_ok k ->
+Theorem C03r_pluq_russian : forall k A P0 Q0, 1 <= k ->
   wf A -> length P0 = nr A -> length Q0 = nc A -> pluq_spec A (pluq_russian k A P0 Q0).
-Proof. exact pluq_russian_spec_partial. Qed.
+Proof. exact pluq_russian_spec. Qed.
 Print Assumptions C03r_pluq_russian.
 
 (** mzd_ple / mzd_pluq with the library's own base case: closes the hypothesis [base_ok] of C03_rec *)
-Theorem C03r_base_ok : forall k, 1 <= k -> update_ok k -> base_ok (ple_russian k).
-Proof. exact base_ok_russian_partial. Qed.
+Theorem C03r_base_ok : forall k, 1 <= k -> base_ok (ple_russian k).
+Proof. exact base_ok_russian. Qed.
 Print Assumptions C03r_base_ok.
 
-Theorem C03r_mzd_ple_closed : forall k cutoff A P0 Q0, 1 <= k -> update_ok k ->
+Theorem C03r_mzd_ple_closed : forall k cutoff A P0 Q0, 1 <= k ->
   wf A -> length P0 = nr A -> length Q0 = nc A ->
   ple_spec A (ple_rec (ple_russian k) cutoff A P0 Q0).
-Proof. exact mzd_ple_closed_partial. Qed.
+Proof. exact mzd_ple_closed. Qed.
 Print Assumptions C03r_mzd_ple_closed.
 
-Theorem C03r_mzd_pluq_closed : forall k cutoff A P0 Q0, 1 <= k -> update_ok k ->
+Theorem C03r_mzd_pluq_closed : forall k cutoff A P0 Q0, 1 <= k ->
   wf A -> length P0 = nr A -> length Q0 = nc A ->
   pluq_spec A (pluq_rec (ple_russian k) cutoff A P0 Q0).
-Proof. exact mzd_pluq_closed_partial. Qed.
+Proof. exact mzd_pluq_closed. Qed.
 Print Assumptions C03r_mzd_pluq_closed.
 
 (** * non-vacuity / the conclusions by computation *)
